@@ -82,6 +82,8 @@ type Contract struct {
 	// closures: facts about the captured variables and the creator's parameters, proved where the
 	// closure is created and assumed in its body
 	Captures []*Clause
+	// function-typed parameters whose calls are assumed not to write the heap (A-CALLBACK)
+	Callbacks map[string]bool
 }
 
 type ContractSet struct {
@@ -97,7 +99,7 @@ var directiveRe = regexp.MustCompile(`^([a-z-]+)(\[[A-Za-z0-9_.:@,-]+\])?(\s+|$)
 var knownDirectives = map[string]bool{"func": true, "extern": true, "property": true, "requires": true, "ensures": true,
 	"modifies": true, "loop": true, "spec": true, "nooverflow": true, "nopanic": true, "inline": true, "assume": true, "pure": true,
 	"noreturn": true, "nilrecv": true, "lemma": true, "var": true, "assumes": true, "shows": true, "uses": true, "iface": true,
-	"bounded": true, "note": true, "ghost": true, "hint": true, "package": true, "opaque": true, "reveal": true, "guard": true, "check": true, "lenient": true, "depends": true, "captures": true, "initfact": true}
+	"bounded": true, "note": true, "ghost": true, "hint": true, "package": true, "opaque": true, "reveal": true, "guard": true, "check": true, "lenient": true, "depends": true, "captures": true, "initfact": true, "callback": true}
 
 // loadContracts parses every zz_verif_contracts.go below root/src.
 func loadContracts(root string) (*ContractSet, error) {
@@ -324,6 +326,13 @@ func (cs *ContractSet) parseFile(path, pkg string) error {
 			cur.NilRecvOK = true
 		case "lenient":
 			cur.Lenient = true
+		case "callback":
+			if cur.Callbacks == nil {
+				cur.Callbacks = map[string]bool{}
+			}
+			for _, f := range strings.Fields(d.text) {
+				cur.Callbacks[f] = true
+			}
 		case "bounded":
 			cur.Bounded = d.text
 		case "ghost":
